@@ -421,6 +421,32 @@ pub fn gen_c13(s: &mut Source) -> (Program, Names, Vec<&'static str>) {
         }
         arms.push(Arm { patterns, body: abody });
     }
+    // A pair of adjacent arms with textually identical bodies (printed as `pA | pB => body`): in
+    // the first the body name is a pattern variable that shadows an outer variable, in the second
+    // the pattern does not bind that name, so the same text denotes the outer variable.
+    if g.s.flag(90) && scope.len() >= 2 {
+        let outer = scope[1 + g.s.below(scope.len() - 1)];
+        let oname = g.names.name(outer, nq);
+        let pv = g.fresh_id();
+        g.names.names.insert(pv, oname);
+        let lit = Term::Int(g.s.below(3) as i64);
+        let pat_a = if g.s.flag(128) { Term::list(vec![Term::Var(pv), lit.clone()]) } else { Term::cons(Term::Var(pv), Term::Nil) };
+        let pat_b = match g.s.below(3) {
+            0 => Term::Nil,
+            1 => lit.clone(),
+            _ => Term::list(vec![lit.clone(), lit.clone(), lit.clone()]),
+        };
+        let mark = Term::Int(5 + g.s.below(3) as i64);
+        let body_for = |v: VarId| vec![Goal::Eq(Term::Var(v), mark.clone())];
+        let pair = vec![Arm { patterns: vec![pat_a], body: body_for(pv) }, Arm { patterns: vec![pat_b], body: body_for(outer) }];
+        let at = g.s.below(arms.len() + 1);
+        let (first, second) = if g.s.flag(128) { (0, 1) } else { (1, 0) };
+        arms.insert(at, pair[first].clone());
+        arms.insert(at + 1, pair[second].clone());
+        g.kinds_seen.insert("alternatives-binding-different-names");
+        g.kinds_seen.insert("alternatives");
+        g.kinds_seen.insert("pattern-variable-shadows-outer");
+    }
     // the matched term: a query variable, or a list of two
     let two = g.s.flag(60);
     let matched = if two { Term::list(vec![Term::Var(0), Term::Var(1)]) } else { Term::Var(0) };
